@@ -218,26 +218,9 @@ def flush(ctx, report):
     upd = [n for n in walk_no_nested(sa.node) if isinstance(n, ast.Assign) and src(n.targets[0]) == "self.active_key"]
     ok2 = len(upd) == 1 and t and upd[0].lineno > t[0].lineno
     report.check(ok and ok2, "R-ORDER", sa, "observers see the OLD key before the active key changes", None, "2")
-    # emptiness considers every node
-    ie = idx.get_function(SPC, "InstructionNodeCreator.is_empty")
-    report.covered(ie)
-    ret = [n.value for n in walk_no_nested(ie.node) if isinstance(n, ast.Return)]
-    ok = False
-    detail = [src(r) for r in ret]
-    if len(ret) == 1:
-        r = ret[0]
-        if isinstance(r, ast.UnaryOp) and isinstance(r.op, ast.Not) and isinstance(r.operand, ast.Call) \
-                and call_name(r.operand) == "any" and isinstance(r.operand.args[0], (ast.GeneratorExp, ast.ListComp)):
-            g = r.operand.args[0]
-            ok = len(g.generators) == 1 and src(g.generators[0].iter) == "self._collection" and not g.generators[0].ifs \
-                and src(g.elt) == f"{src(g.generators[0].target)}.text"
-        elif isinstance(r, ast.Call) and call_name(r) == "all":
-            g = r.args[0]
-            ok = isinstance(g, (ast.GeneratorExp, ast.ListComp)) and src(g.generators[0].iter) == "self._collection"
-    if not ok and len(ret) == 1 and "self._collection" not in src(ret[0]):
-        raise AnalysisError(f"is_empty: shape not recognised: {detail}")
-    report.check(ok, "R-QUANTIFIER", ie, "a buffer is empty only when NO node of the whole collection has text",
-                 {"returns": detail}, "2")
+    # emptiness: folded on buffers built by command sequences
+    from . import scc_buffer
+    scc_buffer.emptiness(ctx, report, "2")
 
 
 def rollup_order(ctx, report):
